@@ -26,10 +26,18 @@ abbrev Row := Col → Val
 /-- pending values `_SO_createValues`, kept sorted by column (= creation order), one entry per column -/
 abbrev Pend := List (Col × Val)
 
+/-- what `destroySelf` of the referenced row does to a referencing row -/
+inductive FkKind
+  | null      -- `cascade='null'`: `row.set(fkID=None)`
+  | cascade   -- `cascade=True`: `row.destroySelf()`
+  deriving DecidableEq, Repr
+
 structure Cfg where
   lazyUpdate : Cls → Bool
   cacheValues : Cls → Bool
   ncols : Cls → Nat
+  /-- column 0 of the class is a `ForeignKey` to the given class with the given cascade policy -/
+  fk : Cls → Option (Cls × FkKind)
   /-- connection option `cache=`; no value-level effect (kept so that theorems quantify over it) -/
   doCache : Bool
 
@@ -51,6 +59,8 @@ inductive Stmt
   | selectRow (cls : Cls) (id : Id)
   | selectCol (cls : Cls) (id : Id) (c : Col)
   | selectCls (cls : Cls)
+  /-- `k.select(k.q.fkID == id)` of `destroySelf` over a dependent class -/
+  | selectRefs (k : Cls) (cls : Cls) (id : Id)
   deriving DecidableEq, Repr
 
 structure State where
@@ -77,6 +87,13 @@ inductive Out
   | badHandle
   deriving DecidableEq, Repr
 
+/-- one step of the dependents loop of `destroySelf`: the SELECT over a dependent class, or the handling
+    of one referencing row (`fresh = some (k, id)`: no instance of that row is in the cache, the library
+    builds one from the select row; `none`: the held instance `hr` is returned and refreshed) -/
+inductive RefStep
+  | sel (k : Cls)
+  | row (hr : Hnd) (fresh : Option (Cls × Id))
+
 inductive Op
   | create (h : Hnd) (cls : Cls) (id : Id) (kvs : List (Col × Inp))
   | fetch (h : Hnd) (cls : Cls) (id : Id) (viaSelect : Bool)
@@ -90,7 +107,7 @@ inductive Op
   | expire (h : Hnd)
   | expireAll
   | expireAllCls (cls : Cls)
-  | destroy (h : Hnd)
+  | destroy (h : Hnd) (refs : List RefStep)
   | pickle (h : Hnd) (fail : Bool)
   | drop (h : Hnd)
   | oobUpdate (cls : Cls) (id : Id) (c : Col) (v : Val)
@@ -318,7 +335,7 @@ def opExpireAll (s : State) (only : Option Cls) : State × Out :=
       if o.inCache && (match only with | none => true | some c => o.cls == c)
       then expireInst o else o) }, .ok)
 
-/-- `destroySelf` (class without joins / dependents) -/
+/-- the final part of `destroySelf`: DELETE, obsolete, out of the cache -/
 def opDestroy (s : State) (h : Hnd) : State × Out :=
   match s.objs h with
   | none => (s, .badHandle)
@@ -326,6 +343,47 @@ def opDestroy (s : State) (h : Hnd) : State × Out :=
     let s1 := logStmt s (.delete o.cls o.id)
     let s2 := { s1 with db := setRowDb s1.db o.cls o.id none }
     (setObj s2 h { o with obsolete := true, inCache := false }, .ok)
+
+/-- `k.get(id, selectResults=row)` for a referencing row -/
+def refGet (cfg : Cfg) (s : State) (hr : Hnd) : Option (Cls × Id) → State × Out
+  | none => opRefresh cfg s hr
+  | some ki => opFetch cfg s hr ki.1 ki.2 true
+
+/-- one referencing row inside `destroySelf` of row (T, r): `k.get(id, selectResults=row)` (refresh of the
+    held instance unless dirty / a new instance), then for `cascade='null'`: `getattr(row, 'fkID') == r` and
+    `row.set(fkID=None)` (or `row.set()`), for `cascade=True`: `row.destroySelf()` -/
+def opRefRow (cfg : Cfg) (s : State) (T : Cls) (r : Id) (hr : Hnd) (fresh : Option (Cls × Id)) : State × Out :=
+  let r1 := refGet cfg s hr fresh
+  if r1.2 ≠ .ok then r1 else
+  match r1.1.objs hr with
+  | none => (r1.1, .badHandle)
+  | some o' =>
+    match cfg.fk o'.cls with
+    | none => (r1.1, .badCol)
+    | some (T', kind) =>
+      if T' ≠ T then (r1.1, .badCol) else
+      match kind with
+      | .cascade => opDestroy r1.1 hr
+      | .null =>
+        let r2 := opRead cfg r1.1 hr 0
+        match r2.2 with
+        | .val v => opSet cfg r2.1 hr (if v = some (Int.ofNat r) then [(0, .ok none)] else []) false
+        | out => (r2.1, out)
+
+def opRefSteps (cfg : Cfg) (s : State) (T : Cls) (r : Id) : List RefStep → State × Out
+  | [] => (s, .ok)
+  | .sel k :: rest => opRefSteps cfg (logStmt s (.selectRefs k T r)) T r rest
+  | .row hr fresh :: rest =>
+    let r1 := opRefRow cfg s T r hr fresh
+    if r1.2 = .ok then opRefSteps cfg r1.1 T r rest else r1
+
+/-- `destroySelf` with its dependents loop (an exception inside the loop leaves the row undeleted) -/
+def opDestroyRefs (cfg : Cfg) (s : State) (h : Hnd) (refs : List RefStep) : State × Out :=
+  match s.objs h with
+  | none => (s, .badHandle)
+  | some o =>
+    let r1 := opRefSteps cfg s o.cls o.id refs
+    if r1.2 = .ok then opDestroy r1.1 h else r1
 
 /-- `__getstate__` -/
 def opPickle (cfg : Cfg) (s : State) (h : Hnd) (fail : Bool) : State × Out :=
@@ -350,7 +408,7 @@ def step (cfg : Cfg) (s : State) : Op → State × Out
   | .expire h => opExpire s h
   | .expireAll => opExpireAll s none
   | .expireAllCls cls => opExpireAll s (some cls)
-  | .destroy h => opDestroy s h
+  | .destroy h refs => opDestroyRefs cfg s h refs
   | .pickle h fail => opPickle cfg s h fail
   | .drop h => opDrop s h
   | .oobUpdate cls id c v => ({ s with db := updRow s.db cls id [(c, v)] }, .ok)
